@@ -23,7 +23,8 @@ RULE = (
 ASSUMPTIONS = [
     "tables are either untyped or completely typed (partially typed tables: row choice not pinned by the property)",
     "row patterns are mutually exclusive per addressing shape, so 'the row for its addressing mode' is unique",
-    "pre-/post-indexed AArch64 operands are not used here (the tables cannot declare them)",
+    "AArch64 tables declare pre_indexed/post_indexed per row as the shipped model files do; a post-indexed row is "
+    "written without offset (as the parser reports such an operand)",
 ]
 MIN_NONTRIVIAL = {"quick": 400, "thorough": 4000}
 PORTS = ["0", "1", "2", "2D", "3", "3D"]
@@ -42,12 +43,14 @@ def uops_s(draw, maxn=2):
 
 
 SHAPES = [(False, False, 1), (True, False, 1), (False, True, 1), (False, True, 8), (True, True, 1), (True, True, 8)]
+# AArch64 additionally: pre-indexed [x, #imm]! (offset present) and post-indexed [x], #imm (no offset) as 4th field
+A_SHAPES = [s_ + (None,) for s_ in SHAPES[:4]] + [(True, False, 1, "pre"), (False, False, 1, "post")]
 
 
 @st.composite
 def tables(draw, isa, types, typed):
     rows = []
-    shapes = draw(st.lists(st.sampled_from(SHAPES if isa == "x86" else SHAPES[:4]), min_size=0, max_size=4, unique=True))
+    shapes = draw(st.lists(st.sampled_from(SHAPES if isa == "x86" else A_SHAPES), min_size=0, max_size=5, unique=True))
     for sh in shapes:
         if typed:
             for t in types:
@@ -99,9 +102,12 @@ def cases(draw, isa):
         ops = []
         for p, k in enumerate(f["kinds"]):
             if p == mempos:
-                sh = draw(st.sampled_from(SHAPES if isa == "x86" else SHAPES[:4]))
+                rmw = bool(f["roles"]) and f["roles"][p] == [True, True]
+                # AArch64: a source+destination memory operand with write-back is OSACA's notation for "load with
+                # base update", not a read-modify-write - that combination is left out
+                sh = draw(st.sampled_from(SHAPES if isa == "x86" else (A_SHAPES[:4] if rmw else A_SHAPES)))
                 sc = 1 if sh[2] == 1 else draw(st.sampled_from([2, 4, 8]))
-                ops.append(["m", sh[0], sh[1], sc])
+                ops.append(["m", sh[0], sh[1], sc] + ([sh[3]] if isa == "aarch64" else []))
             elif k == "imm":
                 ops.append(["i", draw(st.sampled_from([1, 8, 255]))])
             else:
@@ -126,12 +132,18 @@ def render(isa, name, ops):
         elif o[0] == "r":
             out.append("%" + x86_regname(o[1], o[2]) if isa == "x86" else "%s%d" % (o[1], o[2]))
         else:
-            _, ho, hi, sc = o
+            ho, hi, sc = o[1], o[2], o[3]
             if isa == "x86":
                 s = "16" if ho else ""
                 s += "(%rdx" + (",%%rdi,%d" % sc if hi else "") + ")"
                 s = s.replace("%%", "%")
                 out.append(s)
+            elif len(o) > 4 and o[4] == "pre":
+                out.append("[x10, #16]!")
+                continue
+            elif len(o) > 4 and o[4] == "post":
+                out.append("[x10], #16")
+                continue
             else:
                 s = "[x10"
                 if ho:
@@ -167,10 +179,13 @@ def model_dicts(case):
     def rows(rs, key):
         out = []
         for r in rs:
-            ho, hi, sc = r["shape"]
+            ho, hi, sc = r["shape"][:3]
             d = {"base": "gpr" if isa == "x86" else "x", "offset": "imd" if ho else None,
                  "index": ("gpr" if isa == "x86" else "x") if hi else None, "scale": sc,
                  "port_pressure": r["uops"]}
+            if isa == "aarch64":
+                wb = r["shape"][3] if len(r["shape"]) > 3 else None
+                d["pre_indexed"], d["post_indexed"] = wb == "pre", wb == "post"
             if r["type"]:
                 d[key] = r["type"]
             out.append(d)
@@ -198,9 +213,10 @@ def avg(uops):
 
 
 def pick_row(rows, default, op, rtype):
-    _, ho, hi, sc = op
+    ho, hi, sc = op[1], op[2], op[3]
+    wb = op[4] if len(op) > 4 else None
     m = [r for r in rows if r["shape"][0] == ho and r["shape"][1] == hi and
-         ((r["shape"][2] == 1) == (sc == 1))]
+         ((r["shape"][2] == 1) == (sc == 1)) and (r["shape"][3] if len(r["shape"]) > 3 else None) == wb]
     typed = [r for r in m if r["type"] == rtype]
     if typed:
         return typed[0]["uops"], True
@@ -251,7 +267,7 @@ def expected(case, entry):
             "pressure": [a + b for a, b in zip(avg(f["uops"]), data)],
             "lat": f["lat"] + (case["load_lat"][rtype] if s else 0.0), "lat_wo": f["lat"],
             "tp": max(max(data), f["tp"]), "composed": True, "load": s, "store": d, "nondefault": nondefault,
-            "shape": o[1:]}
+            "shape": o[1:], "wb": o[4] if len(o) > 4 else None}
 
 
 # ------------------------------------------------------------------ evaluation
